@@ -94,7 +94,10 @@ int __wrap_idn2_to_ascii_8z(const char *input, char **output, int flags)
             fault_fired = 1;
             fault_fired_code = fault_code;
             wrap_injected++;
-            errno = (wrap_injected & 1) ? ENOMEM : EILSEQ;      /* a failing conversion usually leaves an errno behind */
+            {   /* a failing conversion usually leaves an errno behind; which one says nothing about the conversion */
+                static const int ev[] = { ENOMEM, EILSEQ, EINTR, EAGAIN, EINVAL, 0 };
+                errno = ev[wrap_injected % 6];
+            }
             if (fault_buf && output) {
                 char *p = malloc(32);
                 strcpy(p, "leftover.buffer");
@@ -261,6 +264,14 @@ static void decoys_park(void)
     }
 }
 
+/* 'k': the caller installs callbacks of its own in the public fields (they validate a fixed other address); the next successful
+ * eav_setup has to wire the confirmed mode's validators again */
+static eav_result_t *caller_cb(const char *email, size_t length, bool tld)
+{
+    (void)email; (void)length;
+    return is_822_email("callback@[1.2.3.4]", 18, tld);
+}
+
 static void run_history(char *line)
 {
     eav_t *e = malloc(sizeof *e);
@@ -352,6 +363,14 @@ static void run_history(char *line)
 #endif
             printf(",%d,%d,%d]", confirmed, (int)e->tld_check, e->allow_tld);
         } break;
+        case 'k':
+            e->ascii_cb = caller_cb;
+#ifndef HAVE_IDNKIT
+            e->utf8_cb = caller_cb;
+#endif
+            confirmed = -1;          /* what the object does now is the caller's business until the next successful set-up */
+            printf("[\"k\"]");
+            break;
         case 'm':
             g_stage = "eav_errstr";
             printf("[\"m\",");
